@@ -7,7 +7,8 @@
 From Coq Require Import ZArith List Bool Permutation.
 Import ListNotations.
 Require Import Grist.Model.Sched Grist.Proofs.Sched_proofs Grist.Proofs.Sched_conf_proofs
-  Grist.Proofs.Sched_engine_proofs Grist.Proofs.Sched_inval_proofs.
+  Grist.Proofs.Sched_engine_proofs Grist.Proofs.Sched_inval_proofs
+  Grist.Model.SchedCode GristGen.Sched_gen Grist.Proofs.Sched_bridge.
 Open Scope Z_scope.
 
 (* Every run is finite: no infinite sequence of scheduler transitions exists, for any program (cyclic or
@@ -197,6 +198,44 @@ Theorem lookups_first_is_needed :
     val (xst x2) (11,1) = VInt 11 /\
     scr lk_prog (val_of lk_vals) 5 (11,1) = Some (VInt 11).
 Proof. exact lookups_last_loses_an_invalidation. Qed.
+
+(* ---- the code of /repo, regenerated on every run (GristGen.Sched_gen, harness/sk2v.py), is the model's code ------ *)
+
+(* Engine._make_sorted_work_items (sort key, reverse=True) and work_items.pop(): lookup index nodes are processed
+   before all other nodes - the side condition of engine_order_is_lookups_first *)
+Theorem C06_code_sort_key : forall lk, gen_key_first lk = model_key_first lk.
+Proof. exact gen_key_first_is_model. Qed.
+
+Theorem C06_code_lookups_processed_first :
+  processed_before gen_key_first gen_sort_reverse gen_pop_last true false = true /\
+  processed_before gen_key_first gen_sort_reverse gen_pop_last false true = false.
+Proof. exact gen_order_lookups_first. Qed.
+
+Theorem C06_code_order_gives_idx_first : forall isidx idxs rest s c,
+  (forall x, In x idxs -> isidx (fst x) = true) -> (forall x, In x rest -> isidx (fst x) = false) ->
+  (forall x, In x (dirty s) -> In x (idxs ++ rest)) ->
+  first_dirty (idxs ++ rest) s = Some c -> idx_dirty isidx s = true -> isidx (fst c) = true.
+Proof. exact idx_first_of_split. Qed.
+
+(* the row loop of Engine._recompute_step and its OrderError handler *)
+Theorem C06_code_row_loop : forall a b c d e f g, gen_row_action a b c d e f g = model_row_action a b c d e f g.
+Proof. exact gen_row_action_is_model. Qed.
+
+Theorem C06_code_opportunistic_abandoned : forall r, gen_on_order r = model_on_order r.
+Proof. exact gen_on_order_is_model. Qed.
+
+(* Engine._update_loop's OrderError handler is the model's [need] transition *)
+Theorem C06_code_on_order_error : gen_on_order_error = model_on_order_error.
+Proof. exact gen_on_order_error_is_model. Qed.
+
+(* the changes of a node are accumulated over the whole loop (sched_changes_order_independent speaks about all of them) *)
+Theorem C06_code_changes_accumulate : gen_changes_acquire = model_changes_acquire.
+Proof. exact gen_changes_acquire_is_model. Qed.
+
+Theorem C06_code_need_transition : forall P s c d s',
+  exec P (LNeed c d) s = Some s' ->
+  locked s' = c :: locked s /\ stack s' = (d, Some c) :: stack s /\ dirty s' = dirty s.
+Proof. exact model_need_matches_ops. Qed.
 
 (* The statement at full strength (every program, also formulas with try/except on a cycle) ... *)
 Definition C06_all_programs : Prop := forall P s r1 r2,
